@@ -470,8 +470,8 @@ theorem inv_prepare_all (b : Bool) (d : Inv) (e : ValId × SeriesId) : e ∈ (d.
     | cons x t => simp [h]
   | none => simp [mem_inv_all, h, optList, Inv.files]
 
-theorem inv_flush_all (d : Inv) (e : ValId × SeriesId) : e ∈ d.flush.all ↔ e ∈ d.all := by
-  unfold Inv.flush
+theorem inv_flushNow_all (d : Inv) (e : ValId × SeriesId) : e ∈ d.flushNow.all ↔ e ∈ d.all := by
+  unfold Inv.flushNow
   cases h : d.imm with
   | none => simp [h]
   | some p =>
@@ -507,8 +507,8 @@ theorem fwd_prepare_all (b : Bool) (d : Fwd) (e : KeyId × SeriesId × ValId) : 
     | cons x t => simp [h]
   | none => simp [mem_fwd_all, h, optList, Fwd.files]
 
-theorem fwd_flush_all (d : Fwd) (e : KeyId × SeriesId × ValId) : e ∈ d.flush.all ↔ e ∈ d.all := by
-  unfold Fwd.flush
+theorem fwd_flushNow_all (d : Fwd) (e : KeyId × SeriesId × ValId) : e ∈ d.flushNow.all ↔ e ∈ d.all := by
+  unfold Fwd.flushNow
   cases h : d.imm with
   | none => simp [h]
   | some p =>
@@ -576,8 +576,132 @@ theorem good_of_views {st st' : State} (h : Good st)
       have := h.fresh.writtenLt m s t h1
       simpa [nextSeriesId, hser] using this
 
-/-- every placement step keeps the invariant -/
-theorem step_good {F : Flags} {st : State} (h : Good st) (hl : LutSafe F st) (s : Step) : Good (st.step F s) := by
+/-! ### the flush seen from inside -/
+
+theorem inv_flush_all (d : Inv) (e : ValId × SeriesId) : e ∈ d.flush.all ↔ e ∈ d.all := by
+  unfold Inv.flush
+  split
+  · exact Iff.rfl
+  · exact inv_flushNow_all d e
+
+theorem fwd_flush_all (d : Fwd) (e : KeyId × SeriesId × ValId) : e ∈ d.flush.all ↔ e ∈ d.all := by
+  unfold Fwd.flush
+  split
+  · exact Iff.rfl
+  · exact fwd_flushNow_all d e
+
+theorem inv_flushWrite_all (d : Inv) (e : ValId × SeriesId) : e ∈ d.flushWrite.all ↔ e ∈ d.all := by
+  unfold Inv.flushWrite
+  split
+  · exact Iff.rfl
+  · split <;> exact Iff.rfl
+
+theorem inv_flushFail_all (d : Inv) (e : ValId × SeriesId) : e ∈ d.flushFail.all ↔ e ∈ d.all := by
+  unfold Inv.flushFail
+  split <;> exact Iff.rfl
+
+/-- after `flusher.Close()` the batch is both in the new level-0 file and in the immutable table -/
+theorem inv_flushCommit_all (d : Inv) (e : ValId × SeriesId) : e ∈ d.flushCommit.all ↔ e ∈ d.all := by
+  unfold Inv.flushCommit
+  split
+  · cases h : d.imm with
+    | none => exact Iff.rfl
+    | some p =>
+      simp only [mem_inv_all, h, optList, Inv.files, Option.getD_some, List.flatten_append, List.mem_append,
+        List.flatten_cons, List.flatten_nil, List.append_nil]
+      constructor
+      · rintro (h1 | h1 | (h1 | h1) | h1)
+        · exact Or.inl h1
+        · exact Or.inr (Or.inl h1)
+        · exact Or.inr (Or.inr (Or.inl h1))
+        · exact Or.inr (Or.inl h1)
+        · exact Or.inr (Or.inr (Or.inr h1))
+      · rintro (h1 | h1 | h1 | h1)
+        · exact Or.inl h1
+        · exact Or.inr (Or.inl h1)
+        · exact Or.inr (Or.inr (Or.inl (Or.inl h1)))
+        · exact Or.inr (Or.inr (Or.inr h1))
+  · exact Iff.rfl
+
+theorem fwd_flushWrite_all (d : Fwd) (e : KeyId × SeriesId × ValId) : e ∈ d.flushWrite.all ↔ e ∈ d.all := by
+  unfold Fwd.flushWrite
+  split
+  · exact Iff.rfl
+  · split <;> exact Iff.rfl
+
+theorem fwd_flushFail_all (d : Fwd) (e : KeyId × SeriesId × ValId) : e ∈ d.flushFail.all ↔ e ∈ d.all := by
+  unfold Fwd.flushFail
+  split <;> exact Iff.rfl
+
+theorem fwd_flushCommit_all (d : Fwd) (e : KeyId × SeriesId × ValId) : e ∈ d.flushCommit.all ↔ e ∈ d.all := by
+  unfold Fwd.flushCommit
+  split
+  · cases h : d.imm with
+    | none => exact Iff.rfl
+    | some p =>
+      simp only [mem_fwd_all, h, optList, Fwd.files, Option.getD_some, List.mem_append, List.mem_singleton]
+      constructor
+      · rintro (h1 | h1 | ⟨f, ((hf | hf) | hf), h1⟩)
+        · exact Or.inl h1
+        · exact Or.inr (Or.inl h1)
+        · exact Or.inr (Or.inr ⟨f, Or.inl hf, h1⟩)
+        · subst hf; exact Or.inr (Or.inl (mem_buildFwdFile.mp h1))
+        · exact Or.inr (Or.inr ⟨f, Or.inr hf, h1⟩)
+      · rintro (h1 | h1 | ⟨f, (hf | hf), h1⟩)
+        · exact Or.inl h1
+        · exact Or.inr (Or.inl h1)
+        · exact Or.inr (Or.inr ⟨f, Or.inl (Or.inl hf), h1⟩)
+        · exact Or.inr (Or.inr ⟨f, Or.inr hf, h1⟩)
+  · exact Iff.rfl
+
+/-- while a store's flush is under way its immutable table is set and non-empty; once the file is
+committed every entry of the immutable table is also in a file (so dropping the table loses nothing) -/
+structure PhaseOK (st : State) : Prop where
+  inv : st.inv.phase ≠ .idle → ∃ p, st.inv.imm = some p ∧ p ≠ [] ∧
+    (st.inv.phase = .committed → ∀ e ∈ p, e ∈ st.inv.files.flatten)
+  fwd : st.fwd.phase ≠ .idle → ∃ p, st.fwd.imm = some p ∧ p ≠ [] ∧
+    (st.fwd.phase = .committed → ∀ e ∈ p, ∃ f ∈ st.fwd.files, e ∈ fileEntries f)
+
+theorem inv_flushDrop_all {d : Inv}
+    (hp : d.phase ≠ .idle → ∃ p, d.imm = some p ∧ p ≠ [] ∧ (d.phase = .committed → ∀ e ∈ p, e ∈ d.files.flatten))
+    (e : ValId × SeriesId) : e ∈ d.flushDrop.all ↔ e ∈ d.all := by
+  unfold Inv.flushDrop
+  split
+  · rename_i hc
+    obtain ⟨p, hp1, _, hp3⟩ := hp (by rw [hc]; decide)
+    simp only [mem_inv_all, hp1, optList, Inv.files, Option.getD_some, Option.getD_none, List.not_mem_nil, false_or]
+    constructor
+    · rintro (h1 | h1)
+      · exact Or.inl h1
+      · exact Or.inr (Or.inr h1)
+    · rintro (h1 | h1 | h1)
+      · exact Or.inl h1
+      · exact Or.inr (hp3 hc e h1)
+      · exact Or.inr h1
+  · exact Iff.rfl
+
+theorem fwd_flushDrop_all {d : Fwd}
+    (hp : d.phase ≠ .idle → ∃ p, d.imm = some p ∧ p ≠ [] ∧
+      (d.phase = .committed → ∀ e ∈ p, ∃ f ∈ d.files, e ∈ fileEntries f))
+    (e : KeyId × SeriesId × ValId) : e ∈ d.flushDrop.all ↔ e ∈ d.all := by
+  unfold Fwd.flushDrop
+  split
+  · rename_i hc
+    obtain ⟨p, hp1, _, hp3⟩ := hp (by rw [hc]; decide)
+    simp only [mem_fwd_all, hp1, optList, Fwd.files, Option.getD_some, Option.getD_none, List.not_mem_nil, false_or]
+    constructor
+    · rintro (h1 | h1)
+      · exact Or.inl h1
+      · exact Or.inr (Or.inr h1)
+    · rintro (h1 | h1 | h1)
+      · exact Or.inl h1
+      · exact Or.inr (hp3 hc e h1)
+      · exact Or.inr h1
+  · exact Iff.rfl
+
+/-- every placement step — including every step inside an index flush — keeps the invariant -/
+theorem step_good {F : Flags} {st : State} (h : Good st) (hl : LutSafe F st) (hp : PhaseOK st) (s : Step) :
+    Good (st.step F s) := by
   cases s with
   | prepareMeta => exact good_of_views h rfl rfl rfl rfl rfl (dict_prepare_all _ _) (fun _ => Iff.rfl) (fun _ => Iff.rfl)
   | flushMeta => exact good_of_views h rfl rfl rfl rfl rfl (dict_flush_all _) (fun _ => Iff.rfl) (fun _ => Iff.rfl)
@@ -586,45 +710,111 @@ theorem step_good {F : Flags} {st : State} (h : Good st) (hl : LutSafe F st) (s 
   | flushIndex => exact good_of_views h rfl rfl rfl rfl rfl (fun _ => Iff.rfl) (inv_flush_all _) (fwd_flush_all _)
   | compactIndex =>
     exact good_of_views h rfl rfl rfl rfl rfl (fun _ => Iff.rfl) (inv_compact_all _) (fwd_compact_all _ hl.files)
+  | fwdWrite => exact good_of_views h rfl rfl rfl rfl rfl (fun _ => Iff.rfl) (fun _ => Iff.rfl) (fwd_flushWrite_all _)
+  | fwdFail => exact good_of_views h rfl rfl rfl rfl rfl (fun _ => Iff.rfl) (fun _ => Iff.rfl) (fwd_flushFail_all _)
+  | fwdCommit => exact good_of_views h rfl rfl rfl rfl rfl (fun _ => Iff.rfl) (fun _ => Iff.rfl) (fwd_flushCommit_all _)
+  | fwdDrop => exact good_of_views h rfl rfl rfl rfl rfl (fun _ => Iff.rfl) (fun _ => Iff.rfl) (fwd_flushDrop_all hp.fwd)
+  | invWrite => exact good_of_views h rfl rfl rfl rfl rfl (fun _ => Iff.rfl) (inv_flushWrite_all _) (fun _ => Iff.rfl)
+  | invFail => exact good_of_views h rfl rfl rfl rfl rfl (fun _ => Iff.rfl) (inv_flushFail_all _) (fun _ => Iff.rfl)
+  | invCommit => exact good_of_views h rfl rfl rfl rfl rfl (fun _ => Iff.rfl) (inv_flushCommit_all _) (fun _ => Iff.rfl)
+  | invDrop => exact good_of_views h rfl rfl rfl rfl rfl (fun _ => Iff.rfl) (inv_flushDrop_all hp.inv) (fun _ => Iff.rfl)
 
-theorem step_lutSafe {F : Flags} {st : State} (hl : LutSafe F st) (s : Step) : LutSafe F (st.step F s) := by
+/-- a forward store whose files are old files or the flushed immutable table, with the same entries -/
+theorem lutSafe_fwd_update {F : Flags} {st : State} (hl : LutSafe F st) (d' : Fwd)
+    (hfiles : ∀ f ∈ d'.files, f ∈ st.fwd.files ∨ ∃ p, st.fwd.imm = some p ∧ f = buildFwdFile p)
+    (hall : ∀ e, e ∈ d'.all ↔ e ∈ st.fwd.all) (st' : State) (hst : st'.fwd = d') : LutSafe F st' := by
+  constructor
+  · intro f hf
+    rw [hst] at hf
+    rcases hfiles f hf with h1 | ⟨p, hp, rfl⟩
+    · exact hl.files f h1
+    · apply buildFwdFile_ok
+      intro hc e he
+      exact hl.small hc e (mem_fwd_all.mpr (Or.inr (Or.inl (by simpa [hp, optList] using he))))
+  · intro hc e he
+    rw [hst] at he
+    exact hl.small hc e ((hall e).mp he)
+
+theorem fwd_flushNow_files (d : Fwd) :
+    ∀ f ∈ d.flushNow.files, f ∈ d.files ∨ ∃ p, d.imm = some p ∧ f = buildFwdFile p := by
+  intro f hf
+  unfold Fwd.flushNow at hf
+  cases h : d.imm with
+  | none => exact Or.inl (by simpa [h] using hf)
+  | some p =>
+    cases p with
+    | nil => exact Or.inl (by simpa [h] using hf)
+    | cons x t =>
+      simp only [h, Fwd.files, List.mem_append, List.mem_singleton] at hf
+      rcases hf with (hf | hf) | hf
+      · exact Or.inl (by simp [Fwd.files, hf])
+      · exact Or.inr ⟨_, rfl, hf⟩
+      · exact Or.inl (by simp [Fwd.files, hf])
+
+theorem fwd_flushCommit_files (d : Fwd) :
+    ∀ f ∈ d.flushCommit.files, f ∈ d.files ∨ ∃ p, d.imm = some p ∧ f = buildFwdFile p := by
+  intro f hf
+  unfold Fwd.flushCommit at hf
+  split at hf
+  · cases h : d.imm with
+    | none => exact Or.inl (by simpa [h] using hf)
+    | some p =>
+      simp only [h, Fwd.files, List.mem_append, List.mem_singleton] at hf
+      rcases hf with (hf | hf) | hf
+      · exact Or.inl (by simp [Fwd.files, hf])
+      · exact Or.inr ⟨_, rfl, hf⟩
+      · exact Or.inl (by simp [Fwd.files, hf])
+  · exact Or.inl hf
+
+theorem step_lutSafe {F : Flags} {st : State} (hl : LutSafe F st) (hp : PhaseOK st) (s : Step) :
+    LutSafe F (st.step F s) := by
   cases s with
   | prepareMeta => exact ⟨hl.files, hl.small⟩
   | flushMeta => exact ⟨hl.files, hl.small⟩
   | compactMeta => exact ⟨hl.files, hl.small⟩
+  | invWrite => exact ⟨hl.files, hl.small⟩
+  | invFail => exact ⟨hl.files, hl.small⟩
+  | invCommit => exact ⟨hl.files, hl.small⟩
+  | invDrop => exact ⟨hl.files, hl.small⟩
   | prepareIndex =>
-    constructor
-    · intro f hf
-      apply hl.files f
-      simp only [State.step, Fwd.prepare] at hf
-      cases h : st.fwd.imm with
-      | some p =>
-        cases p with
-        | nil => cases hb : F.prepareOnEmpty <;> simpa [h, hb, Fwd.files] using hf
-        | cons x t => simpa [h, Fwd.files] using hf
-      | none => simpa [h, Fwd.files] using hf
-    · intro hc e he
-      exact hl.small hc e ((fwd_prepare_all _ _ e).mp he)
+    refine lutSafe_fwd_update hl (st.fwd.prepare F.prepareOnEmpty) ?_ (fwd_prepare_all _ _) _ rfl
+    intro f hf
+    left
+    simp only [Fwd.prepare] at hf
+    cases h : st.fwd.imm with
+    | some p =>
+      cases p with
+      | nil => cases hb : F.prepareOnEmpty <;> simpa [h, hb, Fwd.files] using hf
+      | cons x t => simpa [h, Fwd.files] using hf
+    | none => simpa [h, Fwd.files] using hf
   | flushIndex =>
-    constructor
-    · intro f hf
-      simp only [State.step, Fwd.flush] at hf
-      cases h : st.fwd.imm with
-      | none => exact hl.files f (by simpa [h] using hf)
-      | some p =>
-        cases p with
-        | nil => exact hl.files f (by simpa [h] using hf)
-        | cons x t =>
-          simp only [h, Fwd.files, List.mem_append, List.mem_singleton] at hf
-          rcases hf with (hf | hf) | hf
-          · exact hl.files f (by simp [Fwd.files, hf])
-          · subst hf
-            apply buildFwdFile_ok
-            intro hc e he
-            exact hl.small hc e (mem_fwd_all.mpr (Or.inr (Or.inl (by simpa [h, optList] using he))))
-          · exact hl.files f (by simp [Fwd.files, hf])
-    · intro hc e he
-      exact hl.small hc e ((fwd_flush_all _ e).mp he)
+    refine lutSafe_fwd_update hl st.fwd.flush ?_ (fwd_flush_all _) _ rfl
+    intro f hf
+    unfold Fwd.flush at hf
+    split at hf
+    · exact Or.inl hf
+    · exact fwd_flushNow_files _ f hf
+  | fwdWrite =>
+    refine lutSafe_fwd_update hl st.fwd.flushWrite ?_ (fwd_flushWrite_all _) _ rfl
+    intro f hf
+    left
+    unfold Fwd.flushWrite at hf
+    split at hf
+    · exact hf
+    · split at hf <;> exact hf
+  | fwdFail =>
+    refine lutSafe_fwd_update hl st.fwd.flushFail ?_ (fwd_flushFail_all _) _ rfl
+    intro f hf
+    left
+    unfold Fwd.flushFail at hf
+    split at hf <;> exact hf
+  | fwdCommit => exact lutSafe_fwd_update hl st.fwd.flushCommit (fwd_flushCommit_files _) (fwd_flushCommit_all _) _ rfl
+  | fwdDrop =>
+    refine lutSafe_fwd_update hl st.fwd.flushDrop ?_ (fwd_flushDrop_all hp.fwd) _ rfl
+    intro f hf
+    left
+    unfold Fwd.flushDrop at hf
+    split at hf <;> exact hf
   | compactIndex =>
     have hall := fwd_compact_all (cum := F.lutCumulative) st.fwd hl.files
     constructor
